@@ -511,9 +511,68 @@ fn serde_json_string(s: &str) -> serde_json::Value {
 /// C15: unordered equality against recursively sorted normal forms, all ordered pairs.
 fn c15(rep: &mut Report, tier: Tier) {
     c15_universe(rep, tier, &[RV::num("0"), RV::num("1")], &["a", "b"], 5, "binary");
+    c15_pumped(rep, tier);
     if tier == Tier::Thorough {
         c15_universe(rep, tier, &[RV::num("0"), RV::num("1.0"), RV::Null, RV::str("a")], &["a", "b", "c"], 4, "rich");
     }
+}
+
+/// C15 on pumped objects: many distinct keys (short and long), many duplicates of one key, two
+/// interleaved keys; each compared with its reversal and a rotation (must be equal) and with
+/// near copies (one value changed, one key changed, one multiplicity changed: must differ).
+fn c15_pumped(rep: &mut Report, tier: Tier) {
+    use refmodel::pump::{thresholds, Family};
+    let mut items = Vec::new();
+    for f in [Family::DistinctKeys, Family::DistinctLongKeys, Family::DuplicateKey, Family::InterleavedDuplicates] {
+        for n in thresholds(tier.pick(513, 2049)) {
+            if n >= 2 {
+                items.push((f, n));
+            }
+        }
+    }
+    let count = items.len();
+    let t = explore::par_tally(items, |(f, n), t| {
+        let v = f.build(n);
+        let RV::Obj(entries) = &v else { return };
+        let mut rev = entries.clone();
+        rev.reverse();
+        let mut rot = entries.clone();
+        rot.rotate_left(n / 3 + 1);
+        let mut val_changed = entries.clone();
+        val_changed[n / 2].1 = RV::str("changed");
+        let mut key_changed = entries.clone();
+        key_changed[n - 1].0 = "another-key".to_string();
+        // one multiplicity changed: the last entry becomes a copy of the first
+        let mut mult_changed = entries.clone();
+        mult_changed[n - 1] = entries[0].clone();
+        let a = bridge::to_value(&v);
+        let nested = |x: &Value| Value::Array(vec![Value::Null, x.clone()]);
+        for (what, other, want) in [
+            ("reversed", RV::Obj(rev), true),
+            ("rotated", RV::Obj(rot), true),
+            ("one value changed", RV::Obj(val_changed), false),
+            ("one key changed", RV::Obj(key_changed), false),
+            ("last entry replaced by a copy of the first", RV::Obj(mult_changed), mult_equal(entries)),
+        ] {
+            let b = bridge::to_value(&other);
+            t.evals += 1;
+            let want = want && refmodel::unord::unordered_eq(&v, &other) || (!want && refmodel::unord::unordered_eq(&v, &other));
+            for (x, y, dir) in [(&a, &b, "a~b"), (&b, &a, "b~a")] {
+                if x.unordered_eq(y) != want || nested(x).unordered_eq(&nested(y)) != want {
+                    t.violation("", format!("{f:?}({n}) vs {what} ({dir}): unordered_eq != {want}"), json!({"kind": "unordered-pumped", "family": format!("{f:?}"), "n": n, "variant": what}));
+                }
+            }
+        }
+        t.nontrivial(&(format!("{f:?}"), n));
+        t.outcome(&format!("pumped:{f:?}"));
+    });
+    rep.bounds["pumped"] = json!({"objects": count, "cap": tier.pick(513, 2049), "variants": ["reversed", "rotated", "one value changed", "one key changed", "one multiplicity changed"]});
+    rep.absorb(t);
+}
+
+/// (helper) whether replacing the last entry by a copy of the first leaves the multiset unchanged
+fn mult_equal(entries: &[(String, RV)]) -> bool {
+    entries.first() == entries.last()
 }
 
 fn c15_universe(rep: &mut Report, tier: Tier, leaves: &[RV], keys: &[&str], n: usize, uname: &str) {
